@@ -63,8 +63,10 @@ Definition pyformat (fmt : str) (vars : list (str * str)) : option str := fmt_go
 (* str.replace("%%", "%") *)
 Definition undouble (s : str) : str := str_replace s [PCT; PCT] [PCT].
 
-(* _trim_whitespace: _ws_re.sub(" ", s.strip()) with _ws_re = \s*\n\s* : every whitespace run
+(* _trim_whitespace: _ws_re.sub(" ", s.strip()) with _ws_re = \s*(?:\r\n|\r|\n)\s* : every whitespace run
    that contains a line break becomes one space (ASCII whitespace; the ties generate ASCII) *)
+(* a line break: \n or \r (the pattern is \s*(?:\r\n|\r|\n)\s* since fix 4387583) *)
+Definition is_nl (c : N) : bool := (c =? 10) || (c =? 13).
 Definition is_ws (c : N) : bool := ((9 <=? c) && (c <=? 13)) || ((28 <=? c) && (c <=? 32)).
 Fixpoint lstrip (s : str) : str :=
   match s with [] => [] | c :: r => if is_ws c then lstrip r else s end.
@@ -73,7 +75,7 @@ Definition flush (run : str) (nl : bool) : str := if nl then [32] else rev run.
 Fixpoint collapse (run : str) (nl : bool) (s : str) : str :=
   match s with
   | [] => flush run nl
-  | c :: r => if is_ws c then collapse (c :: run) (nl || (c =? 10)) r
+  | c :: r => if is_ws c then collapse (c :: run) (nl || is_nl c) r
               else flush run nl ++ c :: collapse [] false r
   end.
 Definition trim_ws (s : str) : str := collapse [] false (strip s).
